@@ -88,6 +88,14 @@ Theorem C03_decode_pdu_total : forall els, wf_ty (TSeq els) = true -> forall bs,
 Proof. exact decode_pdu_total. Qed.
 Print Assumptions C03_decode_pdu_total.
 
+(* Any.cast_out(type) on what the encoder produced gives the value back.  cast_out and decode are functions of
+   the tag list in the model — they cannot disturb it; what ties this to the implementation is the correspondence
+   history "cast_out twice, then read Any.tagList", compared with (result, result, the unchanged input). *)
+Theorem C03_cast_out_roundtrip : forall t, supported t = true -> wf_ty t = true ->
+  forall v ts, has_ty t v -> encode t v = Ok ts -> cast_out t ts = Ok v.
+Proof. exact cast_out_roundtrip. Qed.
+Print Assumptions C03_cast_out_roundtrip.
+
 (* table obligations (re-checked by make against the tables translated on this run) *)
 Theorem C03_all_wf : forallb wf_ty all_types = true.
 Proof. exact SchemaTables.C03_all_wf. Qed.
